@@ -15,8 +15,8 @@ import (
 )
 
 func TestZZBoundedC15(t *testing.T) {
-	fmt.Println("BOUNDED-BOUND: passwords of 1..3 characters over {x, space, single quote, double quote, backslash, =} containing x; users u and \"u v\"; 5 layouts around = / after PASSWORD; alone and followed by ; SHOW DATABASES")
-	alphabet := []string{"x", " ", "'", "\"", "\\", "="}
+	fmt.Println("BOUNDED-BOUND: passwords of 1..3 characters over {x, space, single quote, double quote, backslash, =, ;} containing x; users u and \"u v\"; 5 layouts around = / after PASSWORD; alone and followed by ; SHOW DATABASES; plus two password statements in one text")
+	alphabet := []string{"x", " ", "'", "\"", "\\", "=", ";"}
 	var pws []string
 	var gen func(cur string, n int)
 	gen = func(cur string, n int) {
@@ -80,6 +80,8 @@ func TestZZBoundedC15(t *testing.T) {
 									class = "comment-in-gap"
 								case strings.ContainsAny(pw, "\"'\\"):
 									class = "quote-or-backslash-in-password"
+								case strings.Contains(pw, ";"):
+									class = "semicolon-in-password"
 								}
 								fails[class]++
 								if _, ok := first[class]; !ok {
@@ -87,6 +89,29 @@ func TestZZBoundedC15(t *testing.T) {
 								}
 							}
 						}
+					}
+				}
+			}
+		}
+	}
+	// two password statements in one text, in both orders (offsets of the second pass
+	// must be computed on the text the first pass produced)
+	for _, pw1 := range []string{"x", "xxxxxxxxxxxx"} {
+		for _, pw2 := range []string{"x", "xxxxxxxxxxxxxxx"} {
+			for _, text := range []string{
+				"SET PASSWORD FOR u = " + QuoteString(pw1) + " ; CREATE USER v WITH PASSWORD " + QuoteString(pw2),
+				"CREATE USER v WITH PASSWORD " + QuoteString(pw2) + " ; SET PASSWORD FOR u = " + QuoteString(pw1),
+				"SET PASSWORD FOR u = " + QuoteString(pw1) + " ; SET PASSWORD FOR w = " + QuoteString(pw2),
+			} {
+				total++
+				if _, err := ParseQuery(text); err != nil {
+					continue
+				}
+				valid++
+				if out := Sanitize(text); strings.Contains(out, "x") {
+					fails["two-password-statements"]++
+					if _, ok := first["two-password-statements"]; !ok {
+						first["two-password-statements"] = fmt.Sprintf("%q -> %q", text, out)
 					}
 				}
 			}
